@@ -67,6 +67,8 @@ def check(ctx):
     from . import c14
     ctx.sub(c14.s1_loop_table)       # a scheduled instant that meets a clock event fires (not before burn-in, inclusive)
     schedules(ctx)
+    from . import c18
+    ctx.sub(c18.shared_state)        # a schedule remembered for the whole process must be filed under everything it was generated from
 
 
 def first_weekday_on_or_after(a0, start, wd_name, path):
